@@ -36,7 +36,7 @@ func init() {
 		ID:    "C16",
 		Level: "fault_enumeration",
 		Rule: "exhaustive fault enumeration: inputs = every sequence of <=3 (quick: 3 over a 30-fragment core) fragments over F x policies {comments on/off, space insertion on/off, AllowUnsafe script/style text, element patterns, UGC}; the fault-free write sequence w_1..w_m is recorded, then for every k<=m and each fault kind (only w_k fails; w_k and all later fail; w_k accepts half and fails) and both writer kinds the run is repeated; " +
-			"and for every byte offset j<=n the reader delivers data[:j] and then a non-EOF error. Oracle: the returned error is non-nil, the writer sees no call after the failing one, the accepted bytes are a prefix of the fault-free output, SanitizeReader returns an empty buffer on reader failure. " +
+			"and for every byte offset j<=n the reader delivers data[:j] and then a non-EOF error (six kinds: generic, io.ErrUnexpectedEOF, io.ErrClosedPipe, io.ErrNoProgress, a timeout error, a wrapped error). Oracle: the returned error is non-nil, the writer sees no call after the failing one, the accepted bytes are a prefix of the fault-free output, SanitizeReader returns an empty buffer on reader failure. " +
 			"non-trivial = distinct (policy, input, fault) runs in which the fault was actually reached.",
 		Assumptions: []string{"faults are injected at the io.Reader / io.Writer seam of the exported API only"},
 		QuickBudget:  50, ThoroughBudget: 800,
@@ -470,7 +470,25 @@ func judgeWriteFault(p *bluemonday.Policy, in []byte, f c16Fault, ref []byte) (s
 	return "", "", true
 }
 
+type timeoutErr struct{}
+
+func (timeoutErr) Error() string   { return "i/o timeout" }
+func (timeoutErr) Timeout() bool   { return true }
+func (timeoutErr) Temporary() bool { return true }
+
+// readErrKinds: the non-EOF errors a source may fail with.
+var readErrKinds = []error{errBoom, io.ErrUnexpectedEOF, io.ErrClosedPipe, io.ErrNoProgress, timeoutErr{}, fmt.Errorf("wrapped: %w", io.ErrUnexpectedEOF)}
+
 func judgeReadFault(p *bluemonday.Policy, in []byte, j int) (sig, what string) {
+	for ki, e := range readErrKinds {
+		if s, w := judgeReadFaultKind(p, in, j, e); s != "" {
+			return fmt.Sprintf("%s|kind%d", s, ki), w + fmt.Sprintf(" (reader error: %v)", e)
+		}
+	}
+	return "", ""
+}
+
+func judgeReadFaultKind(p *bluemonday.Policy, in []byte, j int, readErr error) (sig, what string) {
 	var pm string
 	var err error
 	func() {
@@ -480,7 +498,7 @@ func judgeReadFault(p *bluemonday.Policy, in []byte, j int) (sig, what string) {
 			}
 		}()
 		var buf bytes.Buffer
-		err = p.SanitizeReaderToWriter(&chunkReader{data: in, failAt: j, failErr: errBoom}, &buf)
+		err = p.SanitizeReaderToWriter(&chunkReader{data: in, failAt: j, failErr: readErr}, &buf)
 	}()
 	if pm != "" {
 		return "panic", "panicked: " + pm
@@ -495,7 +513,7 @@ func judgeReadFault(p *bluemonday.Policy, in []byte, j int) (sig, what string) {
 				pm = fmt.Sprint(r)
 			}
 		}()
-		ob = p.SanitizeReader(&chunkReader{data: in, failAt: j, failErr: errBoom})
+		ob = p.SanitizeReader(&chunkReader{data: in, failAt: j, failErr: readErr})
 	}()
 	if pm != "" {
 		return "panic", "SanitizeReader panicked: " + pm
